@@ -1,4 +1,5 @@
 """C14 — coroutine Mutex: mutual exclusion and no lost wake-up (DESIGN.md §3 C14)."""
+from vlib import apiprobe
 from vlib import common as C
 from vlib import conc
 from vlib import memsearch
@@ -65,6 +66,7 @@ def run(res, tier):
         'visibility of one critical section\'s writes in the next is C04 (memory model), not checked here beyond the overlap / lost-update monitor',
         'executor bookkeeping of the batched hand-over (executor swap, which executor resumes whom) is C13\'s resumption-context property; the model records only who is granted and whether in place',
     ]
+    apiprobe.stage(res, 'C14', tier)  # every public form of the area still instantiates (vlib/apiprobe.py, harness/api_probe_*.cpp)
     conc.concurrent_check(
         res, 'C14', tier, 'c14.cpp', 'comutex', RULES,
         quick_args=['--mode', 'dfs', '--pb', '2', '--wb', '1', '--max-exec', '4000'],
@@ -79,6 +81,9 @@ def run(res, tier):
 
 
 def replay(path):
+    r = apiprobe.replay(path)
+    if r is not None:
+        return r
     r = memsearch.replay(path)
     if r is not None:
         return r
